@@ -202,7 +202,7 @@ PROPS = {
                 rule='one evaluation = one (streams, fragmentations, delivery schedule) plan run through the documented client; non-trivial = some connection received >= 2 fragments and at least one NEDATA wait happened; distinct = distinct plan digests'),
     'C11': dict(level='exploration', phases=[('asan', None, 50000, 500000)],
                 rule='one evaluation = one W1 history with cbor_copy weighted up, followed by diverging mutations/releases on source and copy; non-trivial = at least one copy of a tree with >= 2 nodes was taken and both trees were later modified or released; distinct = distinct plan digests'),
-    'C12': dict(level='exploration', phases=[('asan', None, 60000, 600000)],
+    'C12': dict(level='exploration', phases=[('asan', None, 40000, 400000)],
                 rule='one evaluation = one container operation history compared step by step with the list model; non-trivial = at least one refused operation (capacity or index) and one accepted insertion occurred; distinct = distinct plan digests'),
     'C13': dict(level='exploration', phases=[('asan', None, 50000, 500000)],
                 rule='one evaluation = one W1 history or W3 stream run under a PRNG-chosen allocator configuration (direct / tagging / arena; realloc moving or not; faults on or off) with libc allocator entry points of the library objects trapped at link time; non-trivial = the library made >= 1 request through the installed allocator and released >= 1 block; distinct = distinct plan digests'),
